@@ -95,7 +95,7 @@ PROPS = {
                         'the cycle-breaking heuristics (breakCycle), cycles among rules that are only being scanned', 'liveness: that a real cycle always stalls the loop'],
     },
     'C08': {
-        'units': ['extcmd', 'fileinfo'],
+        'units': ['extcmd', 'fileinfo', 'extcmd_run'],
         'design_ref': 'DESIGN.md section 4, C08',
         'claim': 'kernel only: ExternalCommand::isResultValid declares a stored result valid only if every non-virtual output still matches what the '
                  'command produced (existence only for mutated outputs) and never for a non-successful stored result; FileInfo ==/!= and '
@@ -104,12 +104,12 @@ PROPS = {
                         'FileInputNodeTask / ProducedNodeTask / MissingCommandTask'],
     },
     'C10': {
-        'units': ['extcmd', 'subprocess'],
+        'units': ['extcmd', 'subprocess', 'extcmd_run'],
         'design_ref': 'DESIGN.md section 4, C10',
         'claim': 'every stored command result that is not a success is invalid (retried next build); only a successful stored result counts as a prior '
                  'result (so a skipped / propagated-failure value can never short-cut execution); cleanUpExecutedProcess (POSIX) reports success only for '
-                 'a reaped process whose wait status word is 0, cancelled for SIGINT/SIGKILL, failed otherwise, exactly one processFinished and one completion',
-        'not_decided': ['getResultForOutput / provideValue / execute (not under contract at this commit)', 'transitive non-execution across the graph and '
+                 'a reaped process whose wait status word is 0, cancelled for SIGINT/SIGKILL, failed otherwise, exactly one processFinished and one completion; ExternalCommand::start re-initialises the per-build state (skip value, missing keys, hasPriorResult, canUpdateIfNewer) and requests every declared input once under its position; provideValue: a failed input or a disallowed missing input makes the command skip with a propagated failure and a later good input never clears that; execute: a skipping command reports its skip value and never runs, missing inputs count as a command failure, the run is replaced by a look at the outputs only with a successful prior result of THIS build, a failed / cancelled process yields a failed / cancelled command value',
+        'not_decided': ['getResultForOutput, computeCommandResult, the directory creation and the dispatch to executeExternalCommand in execute', 'transitive non-execution across the graph and '
                         'parallel timing', 'the Windows branch of Subprocess.cpp (not compiled here)'],
     },
     'C09': {
